@@ -20,7 +20,10 @@ RECURSIVE Pow2(_)
 Pow2(n) == IF n = 0 THEN 1 ELSE 2 * Pow2(n - 1)
 
 TMeta == Ev("Meta") /\ units' = {}
-TUnits == Ev("Units") /\ units' = { Tr[l].units[i] : i \in 1..Len(Tr[l].units) }
+\* what insert() stores for a unit: a remaining depth below zero (quiescence-node stores of the search) is kept as depth 0; every
+\* other field as given.  A hit must equal the stored form of a catalogue unit.
+Stored(u) == [u EXCEPT !.depth = IF @ < 0 THEN 0 ELSE @]
+TUnits == Ev("Units") /\ units' = { Stored(Tr[l].units[i]) : i \in 1..Len(Tr[l].units) }
 THit == /\ Ev("Hit") /\ UNCHANGED units
         /\ Chk("HitIsAUnit", Tr[l].u \in units, Tr[l].u)
 TIdx ==
